@@ -177,6 +177,16 @@ func runC05Proc(c *vkit.Ctx, p *Program, caseIdx, round int, ci bool, updVar str
 	mode := vkit.Mode{CI: ci, UpdateVar: updVar}
 	top := []string{"TestA", "TestAB", "TestA1", "TestA10"}[round%4]
 	scn := &Scenario{Roots: []string{cellsRoot}, Nodes: map[string]*Node{}, CleanSort: sortOpt, CleanOpts: true}
+	// the CleanOpts value is passed once, twice or three times (the parameter is variadic; the
+	// same value every time, so what is asked for is not in doubt)
+	scn.CleanOptsN = 1 + (caseIdx+round)%3
+	c.Count(fmt.Sprintf("processes_passing_%d_CleanOpts_values", scn.CleanOptsN), 1)
+	if d, s := vkit.CleanPerm(mode, sortOpt); !d && !s && (caseIdx+round)%2 == 0 {
+		// Clean may neither delete nor sort in this process: TestMain also calls it BEFORE the
+		// tests run; it must leave everything alone and must not change what follows
+		scn.CleanBefore = true
+		c.Count("processes_calling_Clean_before_the_tests_run", 1)
+	}
 	topNode := &Node{}
 	scn.Nodes[top] = topNode
 	var cells []cell
